@@ -26,7 +26,21 @@ validations:
         minCount: 1
 `
 
-var verifProfiles = []string{verifGoodProfile, "profile: [unclosed", "profile: OnlyAName\n"}
+const verifUnknownPrefixProfile = `#%Validation Profile 1.0
+profile: Test
+violation:
+  - v1
+validations:
+  v1:
+    message: m
+    targetClass: nosuchprefix.EndPoint
+    propertyConstraints:
+      apiContract.path:
+        minCount: 1
+`
+
+// valid; YAML error; structure error; empty document (the parser fails hard); unknown prefix (the generator fails hard)
+var verifProfiles = []string{verifGoodProfile, "profile: [unclosed", "profile: OnlyAName\n", "", verifUnknownPrefixProfile}
 
 var verifStageOrder = []e.EventType{
 	e.ProfileParsingStart, e.ProfileParsingDone, e.RegoGenerationStart, e.RegoGenerationDone,
@@ -64,7 +78,7 @@ func verifGuard(f func()) (panicked bool, msg string) {
 // a prefix of the stage order and the channel closed exactly once by the validating call.
 func VerifC11Events() {
 	ep := v.Choice("entry", 5)
-	prof := verifProfiles[v.Choice("profile", 3)]
+	prof := verifProfiles[v.Choice("profile", len(verifProfiles))]
 	ch := make(chan e.Event, 64)
 	var compiled *rego.PreparedEvalQuery
 	var cerr error
@@ -143,7 +157,7 @@ func VerifC11Events() {
 // because of the missing channel.
 func VerifC11NilChannel() {
 	ep := v.Choice("entry", 3)
-	prof := verifProfiles[v.Choice("profile", 3)]
+	prof := verifProfiles[v.Choice("profile", len(verifProfiles))]
 	v.Scope("v")
 	panicked, msg := verifGuard(func() {
 		switch ep {
